@@ -24,15 +24,32 @@ def _ode(d):
     return pd.ode(lambda y, /, *, t: f(y, t))
 
 
+_F2 = {}
+
+
+def field_higher(d, order):
+    """u^(order) = f(u, u', ..., u^(order-1), t), uninterpreted."""
+    if (d, order) not in _F2:
+        _F2[(d, order)] = prims.make_uf(f"vf{d}_order{order}", [(d,)] * order, (d,), native=lambda *a: sum((k + 1.0) * jnp.sin(y) for k, y in enumerate(a[:-1])) * (1 + a[-1]) + 0.3)
+    return _F2[(d, order)]
+
+
 def dt0_contract():
     def wrap(target):
-        def f(u0, t0, scale, nugget, *, d):
-            return target(_ode(d), [u0], scale=scale, nugget=nugget, t=t0)
+        def f(u0, t0, scale, nugget, *higher, d):
+            if not higher:
+                return target(_ode(d), [u0], scale=scale, nugget=nugget, t=t0)
+            import probdiffeq.probdiffeq as pd
+
+            g = field_higher(d, 1 + len(higher))
+            ode = pd.ode_order_arbitrary(lambda *ys, t: g(*ys, t), num_tcoeffs_in_args=1 + len(higher))
+            return target(ode, [u0, *higher], scale=scale, nugget=nugget, t=t0)
 
         return f
 
-    def ensures(res, u0, t0, scale, nugget, *, d):
-        f0 = field(d)(u0, t0)
+    def ensures(res, u0, t0, scale, nugget, *higher, d):
+        # the state u(t0) is the *first* coefficient, whatever the order of the ODE
+        f0 = field_higher(d, 1 + len(higher))(u0, *higher, t0) if higher else field(d)(u0, t0)
         ny, nf = jnp.sqrt(jnp.sum(u0 * u0)), jnp.sqrt(jnp.sum(f0 * f0))
         return [eq("heuristic", res * (nf + nugget), scale * ny), gt("strictly_positive", res)]
 
@@ -42,6 +59,10 @@ def dt0_contract():
             def make(rng, d=d):
                 return (jnp.asarray(rng.normal(size=(d,))), jnp.asarray(rng.normal()), jnp.asarray(0.01), jnp.asarray(1e-5)), {"d": d}
             out.append(Instance(f"d={d}", make, positive=lambda a, k: [a[2], a[3]], names=lambda a, k: {id(a[0]): "u0", id(a[1]): "t0", id(a[2]): "scale", id(a[3]): "nugget"}))
+        for d, order in [(2, 2), (1, 3)] + ([(3, 2), (2, 4)] if tier == "thorough" else []):
+            def make(rng, d=d, order=order):
+                return (jnp.asarray(rng.normal(size=(d,))), jnp.asarray(rng.normal()), jnp.asarray(0.01), jnp.asarray(1e-5), *[jnp.asarray(rng.normal(size=(d,))) for _ in range(order - 1)]), {"d": d}
+            out.append(Instance(f"d={d},ode_order={order}", make, positive=lambda a, k: [a[2], a[3]], names=lambda a, k: {id(a[0]): "u0", id(a[1]): "t0", id(a[2]): "scale", id(a[3]): "nugget", **{id(x): f"du{i + 1}" for i, x in enumerate(a[4:])}}))
         return out
 
     return Contract(name=f"{MOD}:dt0", module=MOD, qualname="dt0", wrap=wrap, ensures=ensures, instances=instances,
